@@ -155,7 +155,10 @@ def TmpsOk (is : List VInstr) : Prop :=
 
 A plain bind `(:= y e)` may also occur *as a value* inside an expression, provided no operator reads, as its left
 operand, a variable that its right operand assigns (operand registers are read when the consuming instruction runs),
-and the nested target is an ordinary variable (not a built-in register, whose write transforms the value). -/
+and the nested target is an ordinary variable (not a built-in register, whose write transforms the value).
+So may a guarded bind — `(:= y (if c v))`, `(:= y (!if c v))`, `(:= y (ewma a v))` — under the same discipline: its
+result register is the register of `y`, it assigns `y` and what its operands assign, and its two operands must be
+hazard-free against each other as at statement level (`stmtOk2`). -/
 
 def writesIn : Expr → List Name
   | .sexp .bind (.atom (.name x)) r => x :: writesIn r
@@ -173,9 +176,12 @@ def noHazard (l r : Expr) : Bool :=
   | some x => !(writesIn r).contains x
   | none => true
 
-/-- usable as a value: operators over atoms and nested plain binds to ordinary variables, hazard-free -/
+/-- usable as a value: operators over atoms and nested plain or guarded binds to ordinary variables, hazard-free -/
 def valueE : Expr → Bool
   | .atom _ => true
+  | .sexp .bind (.atom (.name x)) (.sexp .if c v) => !isBuiltinName x && valueE c && valueE v && noHazard c v
+  | .sexp .bind (.atom (.name x)) (.sexp .notIf c v) => !isBuiltinName x && valueE c && valueE v && noHazard c v
+  | .sexp .bind (.atom (.name x)) (.sexp .ewma a v) => !isBuiltinName x && valueE a && valueE v && noHazard a v
   | .sexp .bind (.atom (.name x)) r => !isBuiltinName x && valueE r
   | .sexp o l r =>
     (match o with | .bind | .if | .notIf | .ewma | .def => false | _ => true) && valueE l && valueE r && noHazard l r
@@ -243,24 +249,53 @@ theorem inOracle_of_stratified {evs : List Event} (h : Stratified evs = true) : 
 
 /-! ## inversion lemmas for the fragment and the reference lowering -/
 
+theorem condCode_cases {op : Op} {code : Nat} (h : condCode op = some code) :
+    (op = .if ∧ code = 7) ∨ (op = .notIf ∧ code = 13) ∨ (op = .ewma ∧ code = 5) := by
+  cases op <;> simp [condCode] at h <;> simp [h]
+
+theorem condCode_ne_bind {op : Op} {code : Nat} (h : condCode op = some code) : op ≠ .bind := by
+  rintro rfl; cases h
+
+/-- an expression that is not a conditional / ewma node -/
+def NotCond (e : Expr) : Prop :=
+  (∀ c v, e = .sexp .if c v → False) ∧ (∀ c v, e = .sexp .notIf c v → False) ∧
+  (∀ a v, e = .sexp .ewma a v → False)
+
+theorem notCond_or (e : Expr) : NotCond e ∨ ∃ op a b code, e = .sexp op a b ∧ condCode op = some code := by
+  cases e with
+  | sexp o a b =>
+    cases o <;> first
+      | exact .inr ⟨_, _, _, _, rfl, rfl⟩
+      | (left; refine ⟨?_, ?_, ?_⟩ <;> (intro c v h; cases h))
+  | _ => left; refine ⟨?_, ?_, ?_⟩ <;> (intro c v h; cases h)
+
+/-- the three forms of a value expression that is a node: a plain bind of a value, a guarded bind (conditional /
+ewma over two hazard-free values), an operator over two hazard-free values -/
 theorem valueE_sexp_cases {o : Op} {l r : Expr} (h : valueE (.sexp o l r) = true) :
     (∃ x, o = .bind ∧ l = .atom (.name x) ∧ isBuiltinName x = false ∧ valueE r = true) ∨
+    (∃ x op a b code, o = .bind ∧ l = .atom (.name x) ∧ r = .sexp op a b ∧ condCode op = some code ∧
+      isBuiltinName x = false ∧ valueE a = true ∧ valueE b = true ∧ noHazard a b = true) ∨
     (∃ code, pureOpcode o = some code ∧ valueE l = true ∧ valueE r = true ∧ noHazard l r = true) := by
   by_cases hb : ∃ x, o = .bind ∧ l = .atom (.name x)
   · obtain ⟨x, rfl, rfl⟩ := hb
-    simp only [valueE, Bool.and_eq_true, Bool.not_eq_true'] at h
-    exact .inl ⟨x, rfl, rfl, h.1, h.2⟩
-  · right
+    rcases notCond_or r with ⟨h1, h2, h3⟩ | ⟨op, a, b, code, rfl, hc⟩
+    · rw [valueE.eq_5 x r h1 h2 h3] at h
+      simp only [Bool.and_eq_true, Bool.not_eq_true'] at h
+      exact .inl ⟨x, rfl, rfl, h.1, h.2⟩
+    · right; left
+      rcases condCode_cases hc with ⟨rfl, rfl⟩ | ⟨rfl, rfl⟩ | ⟨rfl, rfl⟩ <;>
+        (simp only [valueE, Bool.and_eq_true, Bool.not_eq_true'] at h
+         exact ⟨x, _, a, b, _, rfl, rfl, rfl, rfl, h.1.1.1, h.1.1.2, h.1.2, h.2⟩)
+  · right; right
     have hne : ∀ x, o = .bind → l = .atom (.name x) → False := fun x h1 h2 => hb ⟨x, h1, h2⟩
     cases o <;> first
-      | (rw [valueE.eq_3 _ _ hne] at h; simp at h; done)
+      | (rw [valueE.eq_6 _ _ (fun x _ _ h1 h2 _ => hne x h1 h2) (fun x _ _ h1 h2 _ => hne x h1 h2)
+            (fun x _ _ h1 h2 _ => hne x h1 h2) hne] at h; simp at h; done)
       | (simp only [valueE, Bool.and_eq_true, Bool.false_eq_true, false_and, Bool.true_and] at h; done)
       | (simp only [valueE, Bool.and_eq_true, Bool.true_and] at h
          exact ⟨_, rfl, h.1.1, h.1.2, h.2⟩)
 
-theorem valueE_not_cond {e : Expr} (hp : valueE e = true) :
-    (∀ c v, e = .sexp .if c v → False) ∧ (∀ c v, e = .sexp .notIf c v → False) ∧
-    (∀ a v, e = .sexp .ewma a v → False) := by
+theorem valueE_not_cond {e : Expr} (hp : valueE e = true) : NotCond e := by
   refine ⟨?_, ?_, ?_⟩ <;> (intro c v h; subst h; simp [valueE] at hp)
 
 theorem writesIn_op {o : Op} {code : Nat} (ho : pureOpcode o = some code) (l r : Expr) :
@@ -270,13 +305,44 @@ theorem writesIn_op {o : Op} {code : Nat} (ho : pureOpcode o = some code) (l r :
   subst hb
   cases ho
 
-theorem lowerE_bind_inv {ρ : Rho} {x : Name} {r : Expr} {k : Nat} {le : LE}
+/-- a guarded bind assigns its target and what its operands assign -/
+theorem writesIn_guard {op : Op} {code : Nat} (hc : condCode op = some code) (x : Name) (a b : Expr) :
+    writesIn (.sexp .bind (.atom (.name x)) (.sexp op a b)) = x :: (writesIn a ++ writesIn b) := by
+  rw [writesIn, writesIn.eq_2]
+  intro y hb _
+  exact condCode_ne_bind hc hb
+
+theorem lowerE_bind_inv {ρ : Rho} {x : Name} {r : Expr} {k : Nat} {le : LE} (hn : NotCond r)
     (h : lowerE ρ (.sexp .bind (.atom (.name x)) r) k = some le) :
     ∃ rx cr, ρ x = some rx ∧ lowerE ρ r k = some cr ∧
       le = ⟨cr.instrs ++ [⟨1, rx, rx, cr.reg⟩], rx, cr.k⟩ := by
-  rw [lowerE] at h
+  rw [lowerE.eq_7 ρ k x r hn.1 hn.2.1 hn.2.2] at h
   split at h
   · rename_i rx cr h1 h2; exact ⟨rx, cr, h1, h2, (Option.some.inj h).symm⟩
+  · cases h
+
+/-- the lowering of a guarded bind used as a value -/
+theorem lowerE_guard {ρ : Rho} {op : Op} {code : Nat} (hc : condCode op = some code) (x : Name) (a b : Expr)
+    (k : Nat) :
+    lowerE ρ (.sexp .bind (.atom (.name x)) (.sexp op a b)) k =
+      match ρ x, lowerE ρ a k with
+      | some rx, some ca =>
+        match lowerE ρ b ca.k with
+        | some cb => some ⟨ca.instrs ++ cb.instrs ++ [⟨code, rx, ca.reg, cb.reg⟩], rx, cb.k⟩
+        | none => none
+      | _, _ => none := by
+  rcases condCode_cases hc with ⟨rfl, rfl⟩ | ⟨rfl, rfl⟩ | ⟨rfl, rfl⟩ <;> (rw [lowerE]; rfl)
+
+theorem lowerE_guard_inv {ρ : Rho} {op : Op} {code : Nat} (hc : condCode op = some code) {x : Name} {a b : Expr}
+    {k : Nat} {le : LE} (h : lowerE ρ (.sexp .bind (.atom (.name x)) (.sexp op a b)) k = some le) :
+    ∃ rx ca cb, ρ x = some rx ∧ lowerE ρ a k = some ca ∧ lowerE ρ b ca.k = some cb ∧
+      le = ⟨ca.instrs ++ cb.instrs ++ [⟨code, rx, ca.reg, cb.reg⟩], rx, cb.k⟩ := by
+  rw [lowerE_guard hc] at h
+  split at h
+  · rename_i rx ca h1 h2
+    split at h
+    · rename_i cb h3; exact ⟨rx, ca, cb, h1, h2, h3, (Option.some.inj h).symm⟩
+    · cases h
   · cases h
 
 theorem lowerE_op_inv {ρ : Rho} {o : Op} {l r : Expr} {k : Nat} {le : LE}
@@ -284,7 +350,8 @@ theorem lowerE_op_inv {ρ : Rho} {o : Op} {l r : Expr} {k : Nat} {le : LE}
     (h : lowerE ρ (.sexp o l r) k = some le) :
     ∃ code cl cr, pureOpcode o = some code ∧ lowerE ρ l k = some cl ∧ lowerE ρ r cl.k = some cr ∧
       le = ⟨cl.instrs ++ cr.instrs ++ [⟨code, vTmp cr.k, cl.reg, cr.reg⟩], vTmp cr.k, cr.k + 1⟩ := by
-  rw [lowerE.eq_5 _ _ _ _ _ hne] at h
+  rw [lowerE.eq_8 _ _ _ _ _ (fun x _ _ h1 h2 _ => hne x h1 h2) (fun x _ _ h1 h2 _ => hne x h1 h2)
+    (fun x _ _ h1 h2 _ => hne x h1 h2) hne] at h
   split at h
   · rename_i code cl ho hl
     split at h
@@ -293,18 +360,24 @@ theorem lowerE_op_inv {ρ : Rho} {o : Op} {l r : Expr} {k : Nat} {le : LE}
     · cases h
   · cases h
 
-/-- the two ways a lowered operator node can have come about -/
+/-- the three ways a lowered node can have come about -/
 theorem lowerE_sexp_cases {ρ : Rho} {o : Op} {l r : Expr} {k : Nat} {le : LE}
     (h : lowerE ρ (.sexp o l r) k = some le) :
     (∃ x rx cr, o = .bind ∧ l = .atom (.name x) ∧ ρ x = some rx ∧ lowerE ρ r k = some cr ∧
       le = ⟨cr.instrs ++ [⟨1, rx, rx, cr.reg⟩], rx, cr.k⟩) ∨
+    (∃ x op a b code rx ca cb, o = .bind ∧ l = .atom (.name x) ∧ r = .sexp op a b ∧ condCode op = some code ∧
+      ρ x = some rx ∧ lowerE ρ a k = some ca ∧ lowerE ρ b ca.k = some cb ∧
+      le = ⟨ca.instrs ++ cb.instrs ++ [⟨code, rx, ca.reg, cb.reg⟩], rx, cb.k⟩) ∨
     (∃ code cl cr, pureOpcode o = some code ∧ lowerE ρ l k = some cl ∧ lowerE ρ r cl.k = some cr ∧
       le = ⟨cl.instrs ++ cr.instrs ++ [⟨code, vTmp cr.k, cl.reg, cr.reg⟩], vTmp cr.k, cr.k + 1⟩) := by
   by_cases hb : ∃ x, o = .bind ∧ l = .atom (.name x)
   · obtain ⟨x, rfl, rfl⟩ := hb
-    obtain ⟨rx, cr, h1, h2, h3⟩ := lowerE_bind_inv h
-    exact .inl ⟨x, rx, cr, rfl, rfl, h1, h2, h3⟩
-  · exact .inr (lowerE_op_inv (fun x h1 h2 => hb ⟨x, h1, h2⟩) h)
+    rcases notCond_or r with hn | ⟨op, a, b, code, rfl, hc⟩
+    · obtain ⟨rx, cr, h1, h2, h3⟩ := lowerE_bind_inv hn h
+      exact .inl ⟨x, rx, cr, rfl, rfl, h1, h2, h3⟩
+    · obtain ⟨rx, ca, cb, h1, h2, h3, h4⟩ := lowerE_guard_inv hc h
+      exact .inr (.inl ⟨x, op, a, b, code, rx, ca, cb, rfl, rfl, rfl, hc, h1, h2, h3, h4⟩)
+  · exact .inr (.inr (lowerE_op_inv (fun x h1 h2 => hb ⟨x, h1, h2⟩) h))
 
 /-- with a pure operator the node is an operator node (the form used on pure expressions) -/
 theorem lowerE_sexp_inv {ρ : Rho} {o : Op} {l r : Expr} {k : Nat} {le : LE} {code : Nat}
@@ -314,5 +387,22 @@ theorem lowerE_sexp_inv {ρ : Rho} {o : Op} {l r : Expr} {k : Nat} {le : LE} {co
   obtain ⟨code', cl, cr, ho', hl, hr, e⟩ := lowerE_op_inv (fun x hb _ => by subst hb; cases ho) h
   rw [ho] at ho'; cases ho'
   exact ⟨cl, cr, hl, hr, e⟩
+
+/-- induction on expressions that also gives the hypothesis for the two operands of a right operand that is
+itself a node (the operands of the conditional / ewma of a guarded bind) -/
+theorem Expr.ind2 {P : Expr → Prop} (atom : ∀ p, P (.atom p)) (cmd : ∀ c, P (.cmd c)) (none : P .none)
+    (sexp : ∀ o l r, P l → P r → (∀ op a b, r = .sexp op a b → P a ∧ P b) → P (.sexp o l r)) : ∀ e, P e := by
+  have key : ∀ e, P e ∧ (∀ op a b, e = .sexp op a b → P a ∧ P b) := by
+    intro e
+    induction e with
+    | atom p => exact ⟨atom p, fun _ _ _ h => by cases h⟩
+    | cmd c => exact ⟨cmd c, fun _ _ _ h => by cases h⟩
+    | none => exact ⟨none, fun _ _ _ h => by cases h⟩
+    | sexp o l r ihl ihr =>
+      refine ⟨sexp o l r ihl.1 ihr.1 ihr.2, ?_⟩
+      intro op a b h
+      cases h
+      exact ⟨ihl.1, ihr.1⟩
+  exact fun e => (key e).1
 
 end Portus.Lang.Frag
